@@ -1205,6 +1205,8 @@ type fwdScen struct {
 	lose      int32
 	executed  int32
 	seq       int
+	// delay (ms) of the leader's handler of new Watch streams (`fwd watch delay=`)
+	watchDelayMs int64
 }
 
 var (
@@ -1236,6 +1238,15 @@ func getFwdScen() *fwdScen {
 			}
 		}
 		return resp, err
+	}), grpc.StreamInterceptor(func(srv interface{}, ss grpc.ServerStream, info *grpc.StreamServerInfo, h grpc.StreamHandler) error {
+		// `fwd watch delay=<ms>`: the leader's handler of a (forwarded) Watch stream starts late - a follower that
+		// answers Created before the leader has confirmed the watch is then observably early
+		if info.FullMethod == "/etcdserverpb.Watch/Watch" {
+			if d := atomic.LoadInt64(&f.watchDelayMs); d > 0 {
+				time.Sleep(time.Duration(d) * time.Millisecond)
+			}
+		}
+		return h(srv, ss)
 	}))
 	f.leaderSrv.Register(gs)
 	go gs.Serve(lis)
@@ -1257,9 +1268,72 @@ func (f *fwdScen) leaderKV(key []byte) (val []byte, modRev int64) {
 	return r.Kvs[0].Value, r.Kvs[0].ModRevision
 }
 
+// watch forwards a watch from "now" through the follower's etcd proxy and, as soon as the client has seen Created,
+// writes the key directly on the leader: the write must be delivered (C05: Created means subscribed - at the leader)
+func (f *fwdScen) watch(opts map[string]string) string {
+	key := []byte(fmt.Sprintf("/r/w%04d-%04d", fwdEpoch, atoi(opts["k"])))
+	f.seq++
+	val := []byte(fmt.Sprintf("w%d", f.seq))
+	if d, ok := opts["delay"]; ok {
+		atomic.StoreInt64(&f.watchDelayMs, int64(atoi(d)))
+	}
+	defer atomic.StoreInt64(&f.watchDelayMs, 0)
+	ctx, cancel := context.WithCancel(context.Background())
+	defer cancel()
+	m := &memStream{ctx: ctx, cancel: cancel, in: make(chan *etcdserverpb.WatchRequest, 4), done: make(chan struct{})}
+	go func() {
+		defer close(m.done)
+		_ = f.follower.Watch(m)
+	}()
+	m.in <- &etcdserverpb.WatchRequest{RequestUnion: &etcdserverpb.WatchRequest_CreateRequest{CreateRequest: &etcdserverpb.WatchCreateRequest{
+		Key: key, StartRevision: 0, PrevKv: true}}}
+	seen := func(pred func(r *etcdserverpb.WatchResponse) bool, d time.Duration) bool {
+		deadline := time.Now().Add(d)
+		for time.Now().Before(deadline) {
+			m.mu.Lock()
+			for _, r := range m.out {
+				if pred(r) {
+					m.mu.Unlock()
+					return true
+				}
+			}
+			m.mu.Unlock()
+			time.Sleep(500 * time.Microsecond)
+		}
+		return false
+	}
+	if !seen(func(r *etcdserverpb.WatchResponse) bool { return r.Created }, 8*time.Second) {
+		return "fwd watch nocreate"
+	}
+	wctx, wcancel := context.WithTimeout(context.Background(), 5*time.Second)
+	resp, err := f.leaderSrv.Txn(wctx, &etcdserverpb.TxnRequest{
+		Compare: []*etcdserverpb.Compare{{Target: etcdserverpb.Compare_MOD, Result: etcdserverpb.Compare_EQUAL, Key: key,
+			TargetUnion: &etcdserverpb.Compare_ModRevision{ModRevision: 0}}},
+		Success: []*etcdserverpb.RequestOp{{Request: &etcdserverpb.RequestOp_RequestPut{RequestPut: &etcdserverpb.PutRequest{Key: key, Value: val}}}}})
+	wcancel()
+	if err != nil || !resp.Succeeded {
+		return "fwd watch write-failed"
+	}
+	delivered := 0
+	if seen(func(r *etcdserverpb.WatchResponse) bool {
+		for _, e := range r.Events {
+			if bytes.Equal(e.Kv.Key, key) && bytes.Equal(e.Kv.Value, val) {
+				return true
+			}
+		}
+		return false
+	}, 3*time.Second) {
+		delivered = 1
+	}
+	return fmt.Sprintf("fwd watch created delivered=%d local=-", delivered)
+}
+
 func (f *fwdScen) do(shape string, opts map[string]string) string {
 	if _, ok := opts["k"]; !ok {
 		return "fwd bad-op"
+	}
+	if shape == "watch" {
+		return f.watch(opts)
 	}
 	key := []byte(fmt.Sprintf("/r/f%04d-%04d", fwdEpoch, atoi(opts["k"])))
 	f.seq++
